@@ -189,13 +189,21 @@ def step (s : St) : Op → St × Res
       match s.heap[p]? with
       | none => (s, .stuck)
       | some q =>
-        -- `if owning_class != mcs`: copy.copy, type.__setattr__, clear the caches of mcs and descendants
-        let (s1, p1) := if owner = c then (s, p) else
+        if owner = c then
+          -- `mcs.__dict__[name].__set__(None, value)`: `_validate`, then `self.default = val`
+          if q.accepts v then ({ s with heap := s.heap.set p { q with default := v } }, .ok)
+          else (s, .valueError)
+        else if q.accepts v then
+          -- `owning_class != mcs`: copy.copy, type.__setattr__, clear the caches of mcs and its
+          -- descendants, then `parameter.__set__(None, value)` on the copy
           let p' := s.heap.length
-          (clearDesc (setDict { s with heap := s.heap ++ [q] } c n p') c, p')
-        -- `mcs.__dict__[name].__set__(None, value)`: `_validate`, then `self.default = val`
-        if q.accepts v then ({ s1 with heap := s1.heap.set p1 { q with default := v } }, .ok)
-        else (s1, .valueError)
+          let s1 := clearDesc (setDict { s with heap := s.heap ++ [q] } c n p') c
+          ({ s1 with heap := s1.heap.set p' { q with default := v } }, .ok)
+        else
+          -- the copy's `__set__` raised and nothing was stored: `type.__delattr__` removes the copy
+          -- again (the class goes on inheriting) and the caches are cleared a second time; the
+          -- discarded copy is unreachable
+          (clearDesc s c, .valueError)
   | .addParam c n d hi =>
     -- src: Parameters.add_parameter
     match s.classes[c]? with
